@@ -465,6 +465,11 @@ where
             res = txs_receiver.receive() => res,
         };
         let tx = res.expect("receiving tx");
+        // the network decoder admits anything that fits a datagram;
+        // a transaction above the size limit would overflow the slice budget below
+        if tx.0.len() > MAX_TRANSACTION_SIZE {
+            continue;
+        }
         tx_count += 1;
         wincode::serialize_into(&mut buffer, &tx)
             .expect("serializing transaction into buffer should not fail");
